@@ -5,7 +5,8 @@ Domain : sleep-enabled scenes (free bodies resting on a plane, stacks, vertical 
          raised so that trees fall asleep within ~10-30 steps; Euler / implicit / implicitfast; Newton / CG / PGS) x
          operation lists: step*k, write qpos / qvel / qfrc_applied / xfrc_applied of a tree (values include -0.0, +0.0
          and a denormal), clear the applied forces, drop a free body onto another tree, move a mocap body into contact /
-         away, toggle an equality.  The list is interpreted on the sleep-enabled model and on a twin compiled with sleep
+         away (mocap bodies may carry a jointless child body whose geom is the one pressed in), rotate a mocap body,
+         toggle an equality.  The list is interpreted on the sleep-enabled model and on a twin compiled with sleep
          disabled.
 Oracle : invariants over the history, checked after every single mj_step and after the mj_forward that follows every
          operation (written from doc/programming/simulation.rst "Sleeping islands" and doc/computation "Sleeping"):
@@ -26,8 +27,9 @@ Oracle : invariants over the history, checked after every single mj_step and aft
             mj_step1 + mj_step2 so that waking and sleeping are observed separately; with an unsplit mj_step a woken
             tree may legitimately be put to sleep again within the same step, in a new cycle that must satisfy I2);
          I8 trees with policy "never" are never asleep.
-         Differential: up to the first sleep event of the history qpos / qvel / qacc / time of the sleep-enabled run and
-         of the sleep-disabled twin are bit-identical after every step and every forward.
+         I9 geoms welded below a mocap body sit where mocap_pos / mocap_quat put them (own forward kinematics).
+         Differential: up to the first sleep event of the history qpos / qvel / qacc / time and the body / geom / site
+         poses of the sleep-enabled run and of the sleep-disabled twin are bit-identical after every step and forward.
 Non-trivial : the history contains a sleep event (a tree falling asleep during stepping, not sleep="init") followed at
          a later observation by a wake event.
 """
@@ -129,7 +131,9 @@ def scene(draw):
              cone=draw(st.sampled_from(['pyramidal', 'elliptic'])),
              tol=draw(st.sampled_from([0.05, 0.2, 1.0])),
              warmstart=draw(st.integers(0, 5)) != 0)
-  return dict(units=units, nmocap=nmocap, eqs=eqs, opt=opt)
+  # mocap bodies may carry a jointless child body with a colliding geom 0.4 away (moves with mocap_pos / mocap_quat)
+  mchild = [draw(st.booleans()) for _ in range(nmocap)]
+  return dict(units=units, nmocap=nmocap, eqs=eqs, opt=opt, mchild=mchild)
 
 
 def geom_xml(gt, size, extra=''):
@@ -169,9 +173,12 @@ def render(sc, sleep=True):
       xml += '<body name="t%d" pos="%s 0.8 1.6"%s><freejoint/>%s</body>' % (i, fmt(x), pol,
                                                                            geom_xml(u['geom'], u['size'], gx))
       named.append(i)
+  mchild = sc.get('mchild') or [False] * sc['nmocap']
   for k in range(sc['nmocap']):
-    xml += ('<body name="mc%d" mocap="true" pos="%s -3 3"><geom name="gm%d" type="sphere" size="0.1"/></body>' % (
-        k, fmt(-1.0 - k), k))
+    child = ('<body name="mc%dc" pos="0.4 0 0" euler="0 0 30"><geom name="gmc%d" type="sphere" size="0.1" pos="0 0 0"/>'
+             '<site name="smc%d"/></body>' % (k, k, k)) if mchild[k] else ''
+    xml += ('<body name="mc%d" mocap="true" pos="%s -3 3"><geom name="gm%d" type="sphere" size="0.1"/>%s</body>' % (
+        k, fmt(-1.0 - k), k, child))
   xml += '</worldbody>'
   pairs = []
   ghosts = [i for i in named if sc['units'][i].get('ghost')]
@@ -182,6 +189,8 @@ def render(sc, sleep=True):
         pairs.append(('g%d' % i, 'g%d' % j))
     for k in range(sc['nmocap']):
       pairs.append(('gm%d' % k, 'g%d' % i))
+      if mchild[k]:
+        pairs.append(('gmc%d' % k, 'g%d' % i))
   if pairs:
     xml += '<contact>%s</contact>' % ''.join('<pair geom1="%s" geom2="%s"/>' % pq for pq in pairs)
   if sc['eqs']:
@@ -216,6 +225,7 @@ def ops_strategy(maxops):
       st.tuples(st.just('clear'), t),
       st.tuples(st.just('drop'), t, t),
       st.tuples(st.just('mocap'), st.integers(0, 1), t, st.sampled_from([True, True, False])),
+      st.tuples(st.just('mquat'), st.integers(0, 1), st.integers(0, 3)),
       st.tuples(st.just('eq'), st.integers(0, 2), st.booleans()),
   )
   return st.integers(4, maxops).flatmap(lambda n: st.lists(op, min_size=n, max_size=n))
@@ -291,6 +301,46 @@ class Info:
     self.mocap_geoms = [g for g in range(int(m.ngeom)) if self.body_tree[self.geom_body[g]] < 0 and
                         self.body_mocap[self.body_root[self.geom_body[g]]] >= 0]
 
+    self.body_parent = np.array(m.body_parentid, dtype=int)
+    self.body_pos = np.array(m.body_pos, dtype=float)
+    self.body_quat = np.array(m.body_quat, dtype=float)
+    self.geom_pos = np.array(m.geom_pos, dtype=float)
+    self.mocap_child_geom = {}
+    for g in self.mocap_geoms:
+      b = self.geom_body[g]
+      if self.body_mocap[b] < 0:
+        self.mocap_child_geom[int(self.body_mocap[self.body_root[b]])] = g
+
+  @staticmethod
+  def rot(q, v):
+    """rotate vector v by unit quaternion q = (w, x, y, z)"""
+    w, u = q[0], np.array(q[1:])
+    return v + 2 * np.cross(u, np.cross(u, v) + w * v)
+
+  @staticmethod
+  def qmul(a, b):
+    return np.array([a[0] * b[0] - a[1:] @ b[1:], *(a[0] * b[1:] + b[0] * a[1:] + np.cross(a[1:], b[1:]))])
+
+  def mocap_geom_pos(self, d, g):
+    """own forward kinematics of a geom welded (through jointless bodies) below a mocap body"""
+    chain = []
+    b = int(self.geom_body[g])
+    while self.body_mocap[b] < 0:
+      chain.append(b)
+      b = int(self.body_parent[b])
+    mi = int(self.body_mocap[b])
+    q = np.array(d.mocap_quat[mi], dtype=float)
+    q = q / np.linalg.norm(q)
+    p = np.array(d.mocap_pos[mi], dtype=float)
+    for c in reversed(chain):
+      p = p + self.rot(q, self.body_pos[c])
+      q = self.qmul(q, self.body_quat[c])
+    return p + self.rot(q, self.geom_pos[g])
+
+  def gpos(self, d, g):
+    """geom centre: own kinematics for mocap-driven geoms (independent of the engine's awake/static bookkeeping)"""
+    return self.mocap_geom_pos(d, g) if g in self.mocap_geoms else np.array(d.geom_xpos[g])
+
   def collidable(self, g1, g2):
     """documented pair selection: an explicit <pair>, or compatible contype/conaffinity bitmasks"""
     if frozenset((g1, g2)) in self.pairs:
@@ -306,10 +356,10 @@ class Info:
       g1, g2, t1, t2 = g2, g1, t2, t1
     if t1 != E.mjGEOM_SPHERE:
       return None
-    c = np.array(d.geom_xpos[g1])
+    c = self.gpos(d, g1)
     r = self.geom_size[g1][0]
     if t2 == E.mjGEOM_SPHERE:
-      return float(np.linalg.norm(c - np.array(d.geom_xpos[g2])) - r - self.geom_size[g2][0])
+      return float(np.linalg.norm(c - self.gpos(d, g2)) - r - self.geom_size[g2][0])
     if t2 == E.mjGEOM_BOX:
       R = np.array(d.geom_xmat[g2]).reshape(3, 3)
       loc = R.T @ (c - np.array(d.geom_xpos[g2]))
@@ -371,9 +421,10 @@ def main(ck):
     def compare_twin(what):
       if st_['ever_slept']:
         return
-      for f in ('qpos', 'qvel', 'qacc'):
+      # poses are compared once a forward pass has run (mj_makeData precomputes static poses only when sleep is enabled)
+      for f in ('qpos', 'qvel', 'qacc') + (('xpos', 'xquat', 'geom_xpos', 'site_xpos') if what != 'initial' else ()):
         if not np.array_equal(bits(getattr(d, f)), bits(getattr(d2, f))):
-          a, b = np.asarray(getattr(d, f)), np.asarray(getattr(d2, f))
+          a, b = np.asarray(getattr(d, f)).ravel(), np.asarray(getattr(d2, f)).ravel()
           k = int(np.flatnonzero(bits(a) != bits(b))[0])
           raise Violation('%s: no tree has slept yet, but %s[%d] differs between sleep enabled (%r) and disabled (%r)' % (
               what, f, k, float(a[k]), float(b[k])), bucket='differential')
@@ -482,6 +533,13 @@ def main(ck):
                                     what, g2, g1, t, -dist, 'explicit <pair>' if frozenset((g1, g2)) in info.pairs else
                                     'contype/conaffinity', ta.tolist(), int(d.ncon)), bucket='I5-penetration')
       if full:
+        # I9: bodies welded below a mocap body follow mocap_pos / mocap_quat (they count as awake: the user can move them
+        # at any time) - engine pose vs own forward kinematics
+        for g in info.mocap_geoms:
+          own = info.mocap_geom_pos(d, g)
+          if np.max(np.abs(np.array(d.geom_xpos[g]) - own)) > 1e-12 * (1 + np.max(np.abs(own))):
+            raise Violation('%s: geom %d below a mocap body is at %s, mocap pose puts it at %s (stale pose)' % (
+                what, g, np.array(d.geom_xpos[g]).tolist(), own.tolist()), bucket='I9-mocap-descendant')
         # I5
         con = d.contact
         for k in range(int(d.ncon)):
@@ -654,13 +712,26 @@ def main(ck):
         mi, t, touch = op[1] % int(m.nmocap), pick(op[2]), op[3]
         if touch:
           g = int(m.body_geomadr[info.root[t]])
-          # mocap sphere (r=0.1) pressed 0.05 into the top of the root geom
+          # mocap sphere (r=0.1) pressed 0.05 into the top of the root geom; if the mocap body has a welded child body the
+          # CHILD's sphere is pressed in (the mocap body itself then sits 0.4 to the side)
           pos = np.array(d.geom_xpos[g]) + np.array([0, 0, info.hz[t] + 0.05])
+          if mi in info.mocap_child_geom:
+            gc = info.mocap_child_geom[mi]
+            pos = pos - (info.mocap_geom_pos(d, gc) - np.array(d.mocap_pos[mi]))
+            labels.add('mocap:touch-with-child-body')
         else:
           pos = np.array([-1.0 - mi, -3, 3])
         both(lambda mm, dd: dd.mocap_pos.__setitem__(mi, pos))
         reason = 'mocap-contact'
         labels.add('mocap:' + ('touch' if touch else 'away'))
+      elif kind == 'mquat':
+        if not m.nmocap:
+          continue
+        mi, ang = op[1] % int(m.nmocap), op[2] * np.pi / 2
+        quat = np.array([np.cos(ang / 2), 0, 0, np.sin(ang / 2)])
+        both(lambda mm, dd: dd.mocap_quat.__setitem__(mi, quat))
+        reason = 'mocap-contact'
+        labels.add('mocap:rotate')
       elif kind == 'eq':
         if not m.neq:
           continue
